@@ -9,7 +9,53 @@ export VERIF_ROOT="$ROOT"
 export CARGO_NET_OFFLINE=true
 export CARGO_TARGET_DIR="$ROOT/target"
 mkdir -p "$ROOT/evidence" "$ROOT/replays"
+# A copy of the library whose std::sync / std::thread paths and thread_local! are rewritten to the
+# controlled scheduler's (shuttle) equivalents, regenerated from /repo's working tree on every build.
+# On the pinned tree the library uses none of them and the copy is identical; if a change
+# introduces locks, atomics or thread-locals, the concurrent pass of C20 can interleave inside calls.
+make_shadow() {
+    SH="$ROOT/target/shadow/lfp-shuttled"
+    rm -rf "$SH"; mkdir -p "$SH"
+    cp -r /repo/src "$SH/src"
+    find "$SH/src" -name '*.rs' -print0 | xargs -0 sed -i -E \
+        -e 's/(::)?\bstd::sync\b/crate::__verif_sync/g' \
+        -e 's/(::)?\bstd::thread\b/crate::__verif_thread/g' \
+        -e 's/(^|[^:A-Za-z_])thread_local!/\1shuttle::thread_local!/g'
+    cat > "$SH/src/__verif_sync.rs" <<'RS'
+//! std::sync as seen by the rewritten copy: shuttle's primitives where it has them, std's otherwise.
+#![allow(unused_imports)]
+pub use std::sync::*;
+pub use shuttle::sync::{Barrier, Condvar, Mutex, MutexGuard, Once, RwLock, RwLockReadGuard, RwLockWriteGuard};
+pub mod atomic {
+    pub use std::sync::atomic::*;
+    pub use shuttle::sync::atomic::{
+        AtomicBool, AtomicI16, AtomicI32, AtomicI64, AtomicI8, AtomicIsize, AtomicPtr, AtomicU16, AtomicU32, AtomicU64, AtomicU8, AtomicUsize,
+    };
+}
+pub mod mpsc {
+    pub use shuttle::sync::mpsc::*;
+}
+RS
+    cat > "$SH/src/__verif_thread.rs" <<'RS'
+#![allow(unused_imports)]
+pub use std::thread::*;
+pub use shuttle::thread::{current, park, scope, sleep, spawn, yield_now, Builder, JoinHandle, Thread, ThreadId};
+RS
+    printf '\n#[allow(dead_code)]\nmod __verif_sync;\n#[allow(dead_code)]\nmod __verif_thread;\n' >> "$SH/src/lib.rs"
+    {
+        printf '[package]\nname = "lipe-find-parser-shuttled"\nversion = "0.0.0"\nedition = "2021"\n\n[lib]\nname = "lipe_find_parser_shuttled"\npath = "src/lib.rs"\n\n[dependencies]\nshuttle = "0.9.3"\n'
+        # the library's own dependencies, verbatim
+        awk '/^\[dependencies\]/{f=1;next} /^\[/{f=0} f' /repo/Cargo.toml
+    } > "$SH/Cargo.toml"
+}
 build() {
+    make_shadow
+    # first with the concurrent pass (needs the rewritten copy to compile and CompiledExpression to be Send + Sync)
+    if (cd "$ROOT/sim" && cargo build --release --offline --features shuttled >"$ROOT/target.build.log" 2>&1); then return 0; fi
+    if grep -q "lipe-find-parser-shuttled\|lipe_find_parser_shuttled\|c20conc" "$ROOT/target.build.log"; then
+        echo "note: the rewritten copy of the library does not build; the concurrent pass of C20 is skipped (see $ROOT/target.build.log.shuttled)" >&2
+        cp "$ROOT/target.build.log" "$ROOT/target.build.log.shuttled"
+    fi
     if ! (cd "$ROOT/sim" && cargo build --release --offline >"$ROOT/target.build.log" 2>&1); then
         echo "harness error: build of fpsim against /repo failed (see $ROOT/target.build.log)" >&2
         tail -n 30 "$ROOT/target.build.log" >&2
@@ -17,6 +63,8 @@ build() {
     fi
 }
 build_debug() {
+    make_shadow
+    if (cd "$ROOT/sim" && cargo build --offline --features shuttled >"$ROOT/target.build.log" 2>&1); then return 0; fi
     if ! (cd "$ROOT/sim" && cargo build --offline >"$ROOT/target.build.log" 2>&1); then
         echo "harness error: dev-profile build of fpsim against /repo failed (see $ROOT/target.build.log)" >&2
         tail -n 30 "$ROOT/target.build.log" >&2
